@@ -87,7 +87,7 @@ def run(rep, tier, seed):
         used = list(c["used"])
         if not with_text and any(k in ("d-text-bold", "d-text-large", "d-text-ol-thick") for k in used):
             pass   # text classes on a shape without text: no text element, no rule expected
-        xml = stylesc.document(used, with_text, root=c["root"], place=c.get("place", "shape"))
+        xml = stylesc.document(used, with_text, root=c["root"], place=c.get("place", "shape"), form=c.get("form"))
         cfg = {"add_auto_styles": c["on"], "theme": THEMES[j % 6]}
         if j % 3 == 0:
             cfg["background"] = "lightgrey"     # a setting that only matters when styles are injected
